@@ -21,8 +21,15 @@
 #include <rime/dict/table.h>
 #include <rime/resource.h>
 #include <rime/service.h>
+#include <rime/verif_hooks.h>
 
 namespace rime {
+
+#ifdef RIME_VERIF
+namespace verif {
+DecisionHook decision_hook = nullptr;
+}  // namespace verif
+#endif  // RIME_VERIF
 
 DictCompiler::DictCompiler(Dictionary* dictionary)
     : dict_name_(dictionary->name()),
@@ -142,6 +149,8 @@ bool DictCompiler::Compile(const path& schema_file) {
   if (options_ & kRebuildPrism) {
     rebuild_prism = true;
   }
+  RIME_VERIF_DECISION("rebuild_table:" + dict_name_, rebuild_table);
+  RIME_VERIF_DECISION("rebuild_prism:" + dict_name_, rebuild_prism);
   Syllabary syllabary;
   if (rebuild_table) {
     EntryCollector collector;
@@ -192,6 +201,7 @@ bool DictCompiler::Compile(const path& schema_file) {
     if (pack_table->Exists() && pack_table->Load()) {
       rebuild_pack = pack_table->dict_file_checksum() != pack_file_checksum;
     }
+    RIME_VERIF_DECISION("rebuild_pack:" + pack_name, rebuild_pack);
     if (rebuild_pack) {
       LOG(INFO) << "rebuilding pack '" << pack_name << "'";
       if (!BuildTable(table_index, collector, &settings, dict_files,
